@@ -63,9 +63,13 @@ def check_sigint(case, rec):
     if strict:
         argv.append("-R")
     env = dict(os.environ, PYTHONPATH=REPO, MPLBACKEND="Agg")
-    p = subprocess.Popen(argv, stdin=subprocess.PIPE, stdout=subprocess.PIPE, stderr=subprocess.PIPE, env=env, cwd=REPO)
+    # (unbuffered stdin: every piece goes out in one write(2), and closing the pipe from the main thread cannot
+    # dead-lock with a feeder thread blocked in a buffered write)
+    p = subprocess.Popen(argv, stdin=subprocess.PIPE, stdout=subprocess.PIPE, stderr=subprocess.PIPE, env=env, cwd=REPO, bufsize=0)
     bps = sw * ch
-    blk = B * bps * 3 + 1  # pieces that do not line up with windows
+    # pieces that do not line up with windows but are whole samples: wherever the stream is cut, what the program
+    # has received is audio (a stray half sample at the end of the stream is not)
+    blk = B * bps * 3 + bps
 
     def feed():
         # a live source: nothing before the program is up, then the recording in
@@ -80,7 +84,6 @@ def check_sigint(case, rec):
                 if len(piece) < blk:
                     piece = piece + bytes(blk - len(piece))
                 p.stdin.write(piece)
-                p.stdin.flush()
                 i += blk
                 time.sleep(0.002)
         except (OSError, ValueError):
